@@ -104,7 +104,8 @@ def find_lexicons(
     cur = connect().cursor()
     found = False
     for specifier in lexicon.split():
-        limit = '-1' if '*' in lexicon else '1'
+        # a bare id selects only the most recently added lexicon with that id
+        limit = '' if '*' in lexicon else 'ORDER BY rowid DESC LIMIT 1'
         if ':' not in specifier:
             specifier += ':*'
         query = f'''
@@ -113,7 +114,7 @@ def find_lexicons(
               FROM lexicons
              WHERE id || ":" || version GLOB :specifier
                AND (:language ISNULL OR language = :language)
-             LIMIT {limit}
+             {limit}
         '''
         params = {'specifier': specifier, 'language': lang}
         for row in cur.execute(query, params):
